@@ -24,26 +24,60 @@ def bytes_const(c):
 # ---------------------------------------------------------------------------------------------
 # signing / hashing sites
 # ---------------------------------------------------------------------------------------------
+def _site_body(ctx, f):
+    """Body in which a signing site is analysed: the private-only REGION of the function (closures: plain body)."""
+    if f["kind"] == "Closure":
+        return body_of(ctx.fx, f["key"])
+    return ctx.region(None, policy="private", key=f["key"])
+
+
 def signing_sites(ctx):
-    """[(kind, fn path, body, bb, term, msg operand)] for every PrivateKey::sign, PublicKey::verify and
-    the digest update of the key-id pre-image (hand-written code only)."""
+    """[(kind, fn, body, bb, term, msg operand)] for every PrivateKey::sign, PublicKey::verify and the digest update of
+    the key-id pre-image.  Module-private helpers are analysed inlined into their callers, not on their own."""
+    from ..cg import vis_kind
     fx = ctx.fx
     out = []
+    cg = ctx.cg
+    callers = {}
+    for k, sites in cg.sites.items():
+        for (bi, t, tgt) in sites:
+            callers.setdefault(tgt, set()).add(k)
     for f in fx.doc["fns"]:
         if f.get("exp") and not str(f.get("exp")).startswith("s:"):
             continue
-        for bi, blk in enumerate(f["blocks"]):
-            t = blk["term"]
-            if not t or t["k"] != "call" or blk["cleanup"]:
+        if f["path"].startswith(("crypto::PrivateKey::", "crypto::PublicKey::")):
+            continue
+        if f["kind"] != "Closure" and vis_kind(f) == "private" and not f.get("impl_trait") and callers.get(f["key"]):
+            continue          # seen inlined in its caller(s)
+        b = _site_body(ctx, f)
+        for bi in sorted(b.reach):
+            t = b.blocks[bi]["term"]
+            if not t or t["k"] != "call":
                 continue
             n = callee_name(t)
+            origin = b.blocks[bi].get("origin", f["path"])
             if n == "crypto::PrivateKey::sign":
-                out.append(("sign", f, bi, t, t["args"][1]))
+                out.append(("sign", f, b, bi, t, t["args"][1]))
             elif n == "crypto::PublicKey::verify":
-                out.append(("verify", f, bi, t, t["args"][1]))
-            elif n == "ring::digest::Context::update" and f["path"] == "crypto::calculate_key_id":
-                out.append(("keyid", f, bi, t, t["args"][1]))
+                out.append(("verify", f, b, bi, t, t["args"][1]))
+    # the key-id pre-image: digest updates in the function that constructs a KeyId from a digest
+    for (pth, bb, exp, rv) in shared.agg_sites(fx, "crypto::KeyId"):
+        f = fx.fn_opt(pth)
+        if f is None or exp:
+            continue
+        fb = body_of(fx, f["key"])
+        src = fb.trace(rv["ops"][0])
+        if not (src and any(l.kind == "call" and callee_name(l.data[1]) == "data_encoding::Encoding::encode" for l in src)):
+            continue
+        b = ctx.region(None, policy="private", key=f["key"])
+        for bi in sorted(b.reach):
+            t = b.blocks[bi]["term"]
+            if t and t["k"] == "call" and callee_name(t) == "ring::digest::Context::update":
+                out.append(("keyid", f, b, bi, t, t["args"][1]))
     return out
+
+
+CTX_REGION = None
 
 
 def resolve_upvar_sources(fx, f, body, op):
@@ -54,7 +88,7 @@ def resolve_upvar_sources(fx, f, body, op):
         m = re.match(r"^param _1\.(\d+)", o) or re.match(r"^param [^ ]*\(_1\)\.(\d+)", o)
         if m and f["kind"] == "Closure":
             parent = fx.fns[f["parent"]]
-            pb = body_of(fx, parent["key"])
+            pb = CTX_REGION(parent) if CTX_REGION else body_of(fx, parent["key"])
             for blk in pb.blocks:
                 for st in blk["stmts"]:
                     if st["k"] == "assign" and st["rv"].get("agg") == "closure" and st["rv"]["closure_key"] == f["key"]:
@@ -103,17 +137,18 @@ def to_bytes_is_canonical(ctx, rule):
 def check_derivations(ctx, rule):
     """C09/D1 + C05/D2: every sign / verify / key-id site derives its bytes the same way."""
     fx = ctx.fx
+    global CTX_REGION
+    CTX_REGION = lambda pf: (body_of(fx, pf["key"]) if pf["kind"] == "Closure" else ctx.region(None, policy="private", key=pf["key"]))
     sites = signing_sites(ctx)
     chains = {}
-    for (kind, f, bi, t, msg) in sites:
-        if f["path"].startswith("crypto::PrivateKey::") or f["path"].startswith("crypto::PublicKey::"):
-            continue
-        b = body_of(fx, f["key"])
-        ctx.touch_fn(f)
+    for (kind, f, b, bi, t, msg) in sites:
         r = resolve_upvar_sources(fx, f, b, msg)
         src = "canonical bytes of %s" % sorted(r["tobytes_roots"]) if r["tobytes_roots"] else ("Json::canonicalize(..)" if r["canon"] else "?")
         chain = tuple(r["post"])
-        key = "%s in %s" % (kind, f["path"])
+        anchor = fx.root_of(f)["path"] if f["kind"] == "Closure" else f["path"]
+        key = "%s in %s" % (kind, anchor)
+        if key in chains:
+            key = "%s#%d" % (key, bi)
         chains[key] = (chain, src, r["other"], t["at"], kind)
     for key, (chain, src, other, at, kind) in sorted(chains.items()):
         ok_src = (src != "?") and not other
@@ -132,60 +167,50 @@ STRUCT_BYTES = {91: "[", 93: "]", 123: "{", 125: "}", 44: ",", 58: ":"}
 STRUCT_WORDS = {"null", "true", "false"}
 
 
-def writer_emits(ctx):
-    """Every site that appends to the output buffer in Value::write and the private helpers it calls:
-    [(body, bb, term, class, detail)]  class in {byte, word, number, escaped-string, recursion, other}."""
-    fx = ctx.fx
-    f = fx.fn_opt(WRITE)
+def writer_region(ctx):
+    f = ctx.fx.fn_opt(WRITE)
     if f is None:
         return None
-    bodies = [body_of(fx, f["key"])]
-    # private helpers called by the writer (inlined by hand: one level)
-    seen = {f["key"]}
-    work = [f["key"]]
-    while work:
-        k = work.pop()
-        for (bi, t, tgt) in ctx.cg.sites.get(k, []):
-            g = fx.fns[tgt]
-            if tgt not in seen and not g.get("pub") and g["path"].startswith("interchange::cjson"):
-                seen.add(tgt)
-                bodies.append(body_of(fx, tgt))
-                work.append(tgt)
+    return ctx.region(None, policy="private", key=f["key"])
+
+
+def writer_emits(ctx):
+    """Every site that appends to the output buffer in the REGION of Value::write (module-private helpers inlined,
+    the recursive call stays a call): [(body, bb, term, class, detail)]
+    class in {byte, word, number, escaped-string, other}."""
+    b = writer_region(ctx)
+    if b is None:
+        return None
     out = []
-    for b in bodies:
-        ctx.touch_body(b)
-        for i, t in b.calls():
-            n = callee_name(t) or ""
-            recv = (t.get("arg_tys") or [""])[0]
-            if "Vec<u8>" not in recv:
+    for i, t in b.calls():
+        n = callee_name(t) or ""
+        recv = (t.get("arg_tys") or [""])[0]
+        if "Vec<u8>" not in recv:
+            continue
+        if n == "std::vec::Vec::push":
+            c = const_int(b, t["args"][1])
+            out.append((b, i, t, "byte" if c is not None else "other", c))
+        elif n in ("std::iter::Extend::extend", "std::vec::Vec::extend_from_slice", "std::io::Write::write_all", "std::vec::Vec::append"):
+            src = t["args"][1]
+            lv = b.trace(src)
+            consts = [bytes_const(l.data) for l in lv if l.kind == "const"]
+            if lv and len(consts) == len(lv) and all(c is not None for c in consts):
+                for c in consts:
+                    out.append((b, i, t, "word", c))
                 continue
-            if n == "std::vec::Vec::push":
-                c = const_int(b, t["args"][1])
-                out.append((b, i, t, "byte" if c is not None else "other", c))
-            elif n in ("std::iter::Extend::extend", "std::vec::Vec::extend_from_slice", "std::io::Write::write_all", "std::vec::Vec::append"):
-                src = t["args"][1]
-                bc = bytes_const(op_const(src))
-                if bc is None:
-                    lv = b.trace(src)
-                    if len(lv) == 1 and lv[0].kind == "const":
-                        bc = bytes_const(lv[0].data)
-                if bc is not None:
-                    out.append((b, i, t, "word", bc))
-                    continue
-                lv = b.trace(src)
-                cls = set()
-                for lf in lv:
-                    if lf.kind == "call":
-                        cn = callee_name(lf.data[1]) or ""
-                        if cn == "itoa::Buffer::format":
-                            cls.add("number")
-                        elif cn == "serde_json::to_string":
-                            cls.add("escaped-string")
-                        else:
-                            cls.add("other:" + short(cn))
+            cls = set()
+            for lf in lv:
+                if lf.kind == "call":
+                    cn = callee_name(lf.data[1]) or ""
+                    if cn == "itoa::Buffer::format":
+                        cls.add("number")
+                    elif cn == "serde_json::to_string":
+                        cls.add("escaped-string")
                     else:
-                        cls.add("other:" + leaf_s(b, lf))
-                out.append((b, i, t, cls.pop() if len(cls) == 1 else "other", sorted(cls)))
+                        cls.add("other:" + short(cn))
+                else:
+                    cls.add("other:" + leaf_s(b, lf))
+            out.append((b, i, t, cls.pop() if len(cls) == 1 else "other", sorted(cls)))
     return out
 
 
@@ -211,7 +236,16 @@ def check_writer(ctx, rule_struct, rule_same_encoder):
     ctx.inst(rule_struct, "literal words", words_seen == STRUCT_WORDS, "constant words appended: %s (expected %s)" % (sorted(words_seen), sorted(STRUCT_WORDS)))
     nums = [e for e in em if e[3] == "number"]
     strs = [e for e in em if e[3] == "escaped-string"]
-    ctx.inst(rule_struct, "numbers are itoa-formatted integers", len(nums) == 2, "%d itoa emit site(s)" % len(nums))
+    int_tys = set()
+    for (b, i, t, cls, detail) in nums:
+        for lf in b.trace(t["args"][1]):
+            if lf.kind == "call":
+                for l2 in b.trace(lf.data[1]["args"][-1]):
+                    if l2.kind == "param" and l2.data == 1 and l2.path[:2] == (("v", "Number"), F0) and l2.path[-1:] == (F0,) and len(l2.path) == 4:
+                        int_tys.add({"I64": "i64", "U64": "u64"}.get(l2.path[2][1], "?"))
+                    else:
+                        int_tys.add("?" + leaf_s(b, l2))
+    ctx.inst(rule_struct, "numbers are itoa-formatted integers", len(nums) >= 2 and int_tys == {"i64", "u64"}, "%d itoa emit site(s) formatting %s" % (len(nums), sorted(int_tys)))
     # the escaped strings: value and key, same derivation  to_string(&serde_json::Value::String(x.clone()))
     derivs = []
     for (b, i, t, cls, detail) in strs:
@@ -223,11 +257,12 @@ def check_writer(ctx, rule_struct, rule_same_encoder):
             for s_ in src:
                 if s_.kind == "agg" and s_.data[2].get("adt") == "serde_json::Value" and s_.data[2].get("variant") == "String":
                     inner = b.trace(s_.data[2]["ops"][0])
-                    d.append(("serde_json::Value::String", "clone" if all("Clone::clone" in l2.via for l2 in inner) else "?"))
+                    # the encoded text is an unmodified copy of the value's own string (trace summaries are all value-preserving)
+                    d.append(("serde_json::Value::String", "own" if inner and all(l2.kind == "param" and l2.data == 1 for l2 in inner) else "?"))
                 else:
                     d.append(("?", leaf_s(b, s_)))
         derivs.append((tuple(d), t["at"], lv))
-    same = len({d[0] for d in derivs}) == 1 and len(derivs) == 2 and all(x[0] == "serde_json::Value::String" for d in derivs for x in d[0])
+    same = len({d[0] for d in derivs}) == 1 and len(derivs) >= 2 and all(x[0] == "serde_json::Value::String" and x[1] == "own" for d in derivs for x in d[0])
     ctx.inst(rule_same_encoder, "string values and object keys use the same encoder", same,
              "%d escaped-string emit site(s); derivations: %s" % (len(derivs), [d[0] for d in derivs]))
     return em
@@ -251,14 +286,17 @@ def check_convert(ctx, rule_num, rule_obj):
     if f is None:
         ctx.bad(rule_num, "convert", "interchange::cjson::convert not found (failing closed)")
         return
-    b = body_of(fx, f["key"])
-    ctx.touch_body(b)
-    # numbers: sources of the Number payloads
+    b = ctx.region(None, policy="private", key=f["key"])
+    bodies = [b] + [body_of(fx, ck) for ck in fx.closures_of.get(f["key"], [])]
+    for g in fx.doc["fns"]:
+        # closures of inlined private helpers
+        if g["kind"] == "Closure" and fx.root_of(g)["path"].startswith("interchange::cjson::") and body_of(fx, g["key"]) not in bodies \
+                and fx.root_of(g)["key"] in {blk.get("origin_key") for blk in b.blocks}:
+            bodies.append(body_of(fx, g["key"]))
     cg = ctx.cg
-    seen = cg.reachable([f["key"]] + [fx.fn(WRITE)["key"]] if fx.fn_opt(WRITE) else [f["key"]])
-    floats = cg.ext_reach(seen, {"serde_json::Number::as_f64", "serde_json::Number::is_f64", "serde_json::Number::as_f32",
-                                 "std::string::ToString::to_string"})
-    floats = [h for h in floats if callee_name(h[2]) != "std::string::ToString::to_string" or "f64" in " ".join(h[2].get("generics", []))]
+    wf = fx.fn_opt(WRITE)
+    seen = cg.reachable([f["key"]] + ([wf["key"]] if wf else []))
+    floats = cg.ext_reach(seen, {"serde_json::Number::as_f64", "serde_json::Number::is_f64", "serde_json::Number::as_f32"})
     ctx.inst(rule_num, "no float access", not floats, "calls to float accessors reachable from convert/write: %s" % [
         (fx.fns[k]["path"], callee_name(t)) for (k, bi, t) in floats])
     casts = []
@@ -271,30 +309,65 @@ def check_convert(ctx, rule_num, rule_obj):
                 if st["k"] == "assign" and st["rv"]["k"] == "cast" and st["rv"]["kind"] in ("FloatToInt", "IntToFloat", "FloatToFloat"):
                     casts.append((g["path"], st["at"]))
     ctx.inst(rule_num, "no float casts", not casts, "float casts in the canonicaliser: %s" % casts)
-    acc = [(i, t) for (i, t) in b.calls() if (callee_name(t) or "").startswith("serde_json::Number::")]
-    for ck in fx.closures_of.get(f["key"], []):
-        cb = body_of(fx, ck)
-        acc += [(i, t) for (i, t) in cb.calls() if (callee_name(t) or "").startswith("serde_json::Number::")]
-    names = sorted({callee_name(t).split("::")[-1] for (i, t) in acc})
+    acc = []
+    for bd in bodies:
+        acc += [(bd, i, t) for (i, t) in bd.calls() if (callee_name(t) or "").startswith("serde_json::Number::")]
+    names = sorted({callee_name(t).split("::")[-1] for (bd, i, t) in acc})
     ctx.inst(rule_num, "integers taken by as_i64 / as_u64 only", names == ["as_i64", "as_u64"], "Number accessors used by convert: %s" % names)
-    # the Number arm ends in ok_or / ok_or_else (None -> Err)
-    okerr = [(i, t) for (i, t) in b.calls_named("std::option::Option::ok_or_else", "std::option::Option::ok_or")]
-    num_arm_ok = False
-    for (i, t) in okerr:
-        lv = b.trace(t["args"][0], (SOME, F0), lambda tt: (callee_name(tt) or "").startswith("serde_json::Number::"))
-        if any(lf.kind == "call" and (callee_name(lf.data[1]) or "").startswith("serde_json::Number::as_") for lf in lv) or \
-                any("Number" in " ".join(t.get("generics", [])) or "Value" in " ".join(t.get("generics", [])) for _ in [0]):
-            num_arm_ok = True
-    ctx.inst(rule_num, "a number that is neither i64 nor u64 is rejected", num_arm_ok, "%d ok_or(_else) conversion(s) on the number arm" % len(okerr))
+    # every Number::I64 / U64 payload is the Some payload of the matching accessor
+    num_ok = True
+    n_sites = 0
+    detail = []
+    for bd in bodies:
+        for i in sorted(bd.reach):
+            for st in bd.blocks[i]["stmts"]:
+                if st["k"] == "assign" and st["rv"].get("adt") == "interchange::cjson::Number":
+                    n_sites += 1
+                    want = {"I64": "as_i64", "U64": "as_u64"}[st["rv"]["variant"]]
+                    lv = bd.trace(st["rv"]["ops"][0])
+                    okp = bool(lv) and all((l.kind == "call" and callee_name(l.data[1]) == "serde_json::Number::" + want and l.path == (SOME, F0))
+                                           or (l.kind == "param" and bd.fn["kind"] == "Closure") for l in lv)
+                    if not okp:
+                        num_ok = False
+                        detail.append("%s <- {%s}" % (st["rv"]["variant"], ", ".join(leaf_s(bd, l) for l in lv)))
+    # Number constructors passed as function items to Option::map (n.as_i64().map(Number::I64))
+    for bd in bodies:
+        for i, t in bd.calls_named("std::option::Option::map"):
+            for a in t["args"][1:]:
+                c = op_const(a)
+                if c and c.get("fn", "").startswith("interchange::cjson::Number::"):
+                    n_sites += 1
+                    want = {"I64": "as_i64", "U64": "as_u64"}[c["fn"].split("::")[-1]]
+                    src = def_call(bd, t["args"][0])
+                    if not (src and callee_name(src[1]) == "serde_json::Number::" + want):
+                        num_ok = False
+                        detail.append("map(%s) applied to %s" % (c["fn"], callee_name(src[1]) if src else "?"))
+    ctx.inst(rule_num, "I64 / U64 are built from as_i64 / as_u64 only", num_ok and n_sites >= 2, "%d construction site(s); problems: %s" % (n_sites, detail))
+    # a number that is neither: an Err (or None -> ok_or Err) is produced on the number arm
+    rejects = False
+    for bd in bodies:
+        for i, t in bd.calls_named("std::option::Option::ok_or_else", "std::option::Option::ok_or"):
+            rejects = True
+        for (e, tb, fa) in bd.all_edge_facts():
+            if fa[0] == "variant" and fa[2] == "None":
+                lv = bd.trace(fa[1])
+                if lv and all(l.kind == "call" and callee_name(l.data[1]) in ("serde_json::Number::as_u64", "serde_json::Number::as_i64") for l in lv):
+                    # the None edge must lead to an Err construction without producing a Number
+                    r = bd.reach_between(tb) if bd.ps else bd.reach_from(tb)
+                    makes_num = any(st["k"] == "assign" and st["rv"].get("adt") == "interchange::cjson::Number" for x in r for st in bd.blocks[x]["stmts"])
+                    makes_err = any(st["k"] == "assign" and st["rv"].get("variant") == "Err" for x in r for st in bd.blocks[x]["stmts"])
+                    if makes_err and (callee_name(lv[0].data[1]).endswith("as_u64") and not makes_num):
+                        rejects = True
+    ctx.inst(rule_num, "a number that is neither i64 nor u64 is rejected", rejects, "None of both accessors leads to an error: %s" % rejects)
     # objects: loop over the whole source object inserting every member
     ins = [(i, t) for (i, t) in b.calls_named("std::collections::BTreeMap::insert")]
     okobj = False
     detail = "no BTreeMap::insert in convert"
     for (i, t) in ins:
         kl = b.trace(t["args"][1])
-        key_from_member = bool(kl) and all(
-            lf.kind == "call" and callee_name(lf.data[1]) in ("serde_json::Map::iter", "std::iter::Iterator::next") and lf.path[-1:] == (F0,)
-            and "Clone::clone" in lf.via for lf in kl)
+        key_from_member = bool(kl) and all("Clone::clone" in lf.via and lf.path[-1:] == (F0,) and
+                                           ((lf.kind == "call" and callee_name(lf.data[1]) in ("serde_json::Map::iter", "std::iter::Iterator::next")) or
+                                            (lf.kind == "param" and lf.data == 1 and "IntoIterator::into_iter" in lf.via)) for lf in kl)
         for lf in kl:
             if lf.kind == "call" and callee_name(lf.data[1]) == "serde_json::Map::iter":
                 rr = root_ids(b, lf.data[1]["args"][0])
@@ -309,21 +382,27 @@ def check_convert(ctx, rule_num, rule_obj):
             if hdr:
                 ht = b.blocks[hdr[0]]["term"]
                 src = b.trace(ht["args"][0])
-                whole = bool(src) and all(set(lf.via) <= {"IntoIterator::into_iter", "Map::iter", "serde_json::Map::iter", "Deref::deref"} or True for lf in src) and \
-                    not any(x in " ".join(lf.via) for lf in src for x in ("take", "skip", "filter", "step_by"))
+                whole = bool(src) and not any(x in " ".join(lf.via) for lf in src for x in ("take", "skip", "filter", "step_by"))
             no_exit = not b.continuing_exits(lp)
         okobj = key_from_member and whole and no_exit
         detail = "member key <- {%s}; whole-object loop: %s; no early exit: %s" % (", ".join(leaf_s(b, l) for l in kl), whole, no_exit)
     ctx.inst(rule_obj, "every member of the source object is inserted", okobj, detail)
-    # arrays
+    # arrays: a push loop without early exit, or map(convert) over the whole array collected
     pushes = [(i, t) for (i, t) in b.calls_named("std::vec::Vec::push")]
     okarr = False
+    how = ""
     for (i, t) in pushes:
         loops = [l for l in b.loops().values() if i in l]
-        if loops:
-            lp = min(loops, key=len)
-            okarr = not b.continuing_exits(lp)
-    ctx.inst(rule_obj, "every element of the source array is converted", okarr or not pushes and False, "%d push site(s) inside a loop without early exit: %s" % (len(pushes), okarr))
+        if loops and not b.continuing_exits(min(loops, key=len)):
+            okarr, how = True, "push loop without early exit"
+    for i, t in b.calls_named("std::iter::Iterator::map"):
+        fnc = [op_const(a) for a in t["args"][1:]]
+        if any(c and c.get("fn") == CONVERT for c in fnc):
+            src = b.trace(t["args"][0])
+            if src and not any(x in " ".join(l.via) for l in src for x in ("take", "skip", "filter", "step_by")):
+                # consumed by collect (into Result<Vec<_>,_>) or by a for loop that pushes every element
+                okarr, how = True, (how + "; " if how else "") + "map(convert) over the whole array"
+    ctx.inst(rule_obj, "every element of the source array is converted", okarr, how or "no element-wise conversion of arrays found")
 
 
 def check_public_canonicalize(ctx, rule):
@@ -398,8 +477,7 @@ def check_olpc(ctx, chains, rule_net, rule_ctx):
             if g is None:
                 ctx.bad(rule_net, "un-escaper " + path, "not found")
                 continue
-            gb = body_of(fx, g["key"])
-            ctx.touch_body(gb)
+            gb = ctx.region(None, policy="private", key=g["key"], ps=True)
             handled = set()
             for (e, tb, f) in gb.all_edge_facts():
                 if f[0] == "int":
